@@ -117,9 +117,9 @@ EXTRA = [
 def _dom(tier):
     if tier == "thorough":
         return dict(alphabet=BASE + EXTRA, maxlen=3, nmax=7, kinf=8, horizon=20,
-                    styles=("pair", "bare"), forms=("seq", "source"))
+                    styles=("pair", "bare"), forms=("seq", "source", "source-iter"))
     return dict(alphabet=BASE, maxlen=2, nmax=6, kinf=6, horizon=16,
-                styles=("pair", "bare"), forms=("seq", "source"))
+                styles=("pair", "bare"), forms=("seq", "source", "source-iter"))
 
 
 def describe(tier):
@@ -215,6 +215,9 @@ def run_schedule(pipeline, form, n, style, stage, k, limit, bound_live, warmup=F
         holder = [src]
         if form == "seq":
             seq = lena.core.Sequence(*els)
+        elif form == "source-iter":
+            # the first element of the Source is the (one-shot) iterator itself, not a callable
+            seq = lena.core.Source(src, *els)
         else:
             seq = lena.core.Source(lambda: holder[0], *els)
         if log:
@@ -336,7 +339,8 @@ def judge_combo(res, ctx, pipeline, form, n, style, dom, only=None):
         if ndis:
             res.count("oracle_crosscheck_disagreements", ndis)
         bound = stages[0]
-        for warm in ((False, True) if (stage in ("take", "end") and free_of_state) else (False,)):
+        for warm in ((False, True) if (stage in ("take", "end") and free_of_state and form != "source-iter")
+                     else (False,)):
             if only is not None and len(only) > 2 and bool(only[2]) != warm:
                 continue
             if warm:
